@@ -127,10 +127,11 @@ func thmRecordRoundTrip(s *SAM, key string) {
 	//@ assert g.Qname == s.Qname && g.Rname == s.Rname && g.Cigar == s.Cigar && g.Rnext == s.Rnext && g.Seq == s.Seq && g.Qual == s.Qual
 	//@ assert g.Flag == s.Flag && g.Pos == s.Pos && g.Mapq == s.Mapq && g.Pnext == s.Pnext && g.Tlen == s.Tlen
 	//@ assert forall k string :: has(s.Tags, k) ==> exists j int :: 11 <= j && j < len(fields) && isTagText(fields[j], k, s.Tags[k])
+	//@ assert forall k string :: has(s.Tags, k) ==> exists j int :: 11 <= j && j < len(fields) && tname(fields[j]) == k
 	//@ assert forall k string :: has(s.Tags, k) ==> has(g.Tags, k)
-	//@ assert forall k string :: has(g.Tags, k) ==> has(s.Tags, k)
 	//@ assert forall j int :: {fields[j]} 11 <= j && j < len(fields) ==> exists k string :: has(s.Tags, k) && tname(fields[j]) == k && sameDyn(tval(fields[j]), s.Tags[k])
 	//@ assert forall k string :: has(g.Tags, k) ==> exists j int :: 11 <= j && j < len(fields) && tname(fields[j]) == k && g.Tags[k] == tval(fields[j])
+	//@ assert forall k string :: has(g.Tags, k) ==> has(s.Tags, k)
 	// for an arbitrary tag name `key` (a parameter of the theorem): same presence, same dynamic type, same content
 	//@ assert has(s.Tags, key) <==> has(g.Tags, key)
 	//@ assert has(g.Tags, key) ==> exists j int :: 11 <= j && j < len(fields) && tname(fields[j]) == key && g.Tags[key] == tval(fields[j]) && sameDyn(tval(fields[j]), s.Tags[key])
